@@ -370,3 +370,5 @@ func VerifH_C19_m3u8() {
 		}
 	}
 }
+
+func bytesReader(s string) *bytes.Reader { return bytes.NewReader([]byte(s)) }
